@@ -51,9 +51,14 @@ func c09Gen(c *vfCtx, emit func(c09Case)) {
 									if mask&1 != 0 {
 										es = append(es, staleEntryChoices[0])
 									}
-									live := []vfEntry{{ID: "TestA - 1", Body: "a1"}, {ID: "TestA - 2", Body: "a2"}, {ID: "TestB - 1", Body: "b1"}}
+									// half of the cases: a LIVE value with lines shaped like entry headers (they are text, not entries, in every mode)
+									b1 := "b1"
+									if (mask+fmask+cnt)%2 == 1 {
+										b1 = "board:\n[backlog - 3]\n\n[TestQ/x - 12]\nend"
+									}
+									live := []vfEntry{{ID: "TestA - 1", Body: "a1"}, {ID: "TestA - 2", Body: "a2"}, {ID: "TestB - 1", Body: b1}}
 									if unsorted {
-										live = []vfEntry{{ID: "TestB - 1", Body: "b1"}, {ID: "TestA - 2", Body: "a2"}, {ID: "TestA - 1", Body: "a1"}}
+										live = []vfEntry{{ID: "TestB - 1", Body: b1}, {ID: "TestA - 2", Body: "a2"}, {ID: "TestA - 1", Body: "a1"}}
 									}
 									es = append(es, live[0])
 									if mask&2 != 0 {
@@ -99,12 +104,53 @@ func c09Gen(c *vfCtx, emit func(c09Case)) {
 										sc.Files = append(sc.Files, vfNamedFile{Name: "a.snap", Entries: []vfEntry{{ID: "TestA - 1", Body: "x1"}, {ID: "TestA - 2", Body: "x2"}, {ID: "TestA - 3", Body: "x3"}}})
 										ta.Calls = append(ta.Calls, vfCall{API: "snap", Val: "x1", File: "a"}, vfCall{API: "snap", Val: "x2", File: "a"}, vfCall{API: "snap", Val: "x3", File: "a"})
 									}
-									sc.Tests = []vfTestExec{ta, {Name: "TestB", Calls: []vfCall{{API: "snap", Val: "b1"}}}}
+									sc.Tests = []vfTestExec{ta, {Name: "TestB", Calls: []vfCall{{API: "snap", Val: b1}}}}
 									emit(c09Case{Sc: sc})
 								}
 							}
 						}
 					}
+				}
+			}
+		}
+	}
+}
+
+// c09Varying: -count > 1 with a test whose number of calls differs between the executions (3 then 2, 2 then 3, 1 then 3):
+// a slot addressed in ANY execution is live; the slots beyond the highest ordinal reached are stale.
+func c09Varying(env string, emit func(c09Case)) {
+	calls := func(n int, file string) []vfCall {
+		var cl []vfCall
+		for i := 1; i <= n; i++ {
+			cl = append(cl, vfCall{API: "snap", Val: fmt.Sprintf("v%d", i), File: file})
+		}
+		return cl
+	}
+	for _, cnt := range []int{2, 3} {
+		for _, nn := range [][2]int{{3, 2}, {2, 3}, {1, 3}, {3, 1}} {
+			for _, srt := range []bool{false, true} {
+				for _, sa := range []bool{false, true} {
+					sc := vfCleanScenario{Count: cnt, Sort: srt, Env: env, SFiles: map[string]string{}, Other: map[string]string{"notes.txt": "n"}}
+					es := []vfEntry{{ID: "TestVar - 4", Body: "beyond"}, {ID: "TestVar - 3", Body: "v3"}, {ID: "TestVar - 1", Body: "v1"}, {ID: "TestVar - 2", Body: "v2"}, {ID: "TestB - 1", Body: "v1"}, {ID: "TestOld - 1", Body: "old"}}
+					sc.Files = []vfNamedFile{{Name: "f.snap", Entries: es}}
+					first := vfTestExec{Name: "TestVar", Calls: calls(nn[0], "")}
+					later := vfTestExec{Name: "TestVar", Calls: calls(nn[1], "")}
+					if sa {
+						// the standalone calls vary too
+						for i := 1; i <= 4; i++ {
+							sc.SFiles[fmt.Sprintf("TestVar_%d.snap", i)] = fmt.Sprintf("s%d", i)
+						}
+						for i := 1; i <= nn[0]; i++ {
+							first.Calls = append(first.Calls, vfCall{API: "ssnap", Val: fmt.Sprintf("s%d", i)})
+						}
+						for i := 1; i <= nn[1]; i++ {
+							later.Calls = append(later.Calls, vfCall{API: "ssnap", Val: fmt.Sprintf("s%d", i)})
+						}
+					}
+					b := vfTestExec{Name: "TestB", Calls: calls(1, "")}
+					sc.Tests = []vfTestExec{first, b}
+					sc.Tests2 = []vfTestExec{later, b}
+					emit(c09Case{Sc: sc})
 				}
 			}
 		}
@@ -263,5 +309,6 @@ func init() {
 		c.rule = "every combination of stale entries (first/middle/last position, beyond the ordinal, stale subtest), stale files (multi-entry, standalone, .snap.bak, custom extension), " +
 			"unrelated files and sub-directories, standalone calls, -count, sort, CI, skip-protected tests, in each UPDATE_SNAPS process; all cases distinct and non-trivial"
 		c09Gen(c, emit)
+		c09Varying(os.Getenv("UPDATE_SNAPS"), emit)
 	}, c09Run)
 }
